@@ -58,7 +58,8 @@ func readImports(r Reader, cat Catalog) ([]SharedSymbolTable, error) {
 			return nil, err
 		}
 
-		if val.LocalSID == 3 {
+		if val.LocalSID == 3 || (val.Text != nil && *val.Text == "$ion_symbol_table") {
+			// (A quoted '$ion_symbol_table' in text carries the text but no SID.)
 			// Special case that imports the current local symbol table.
 			if r.SymbolTable() == nil || r.SymbolTable() == V1SystemSymbolTable {
 				return nil, nil
